@@ -11,6 +11,7 @@
    reference tokens ss - the statement of C07 (the lexer agrees with the lexical grammar); C01
    is proved relative to it, for EVERY token sequence of the dialect (no parse hypothesis: also
    sequences no program contains), every configuration and every keep file. *)
+From PV Require Proofs.LexerChunk.
 From PV Require Import Base.Prelude Spec.LuaLex Instances.HoldsC02 Instances.HoldsC01
   Generated.T_lexer Generated.T_luanames Model.NameFactory Model.Lexer Model.TokWriters
   Proofs.LuaLexFacts Proofs.TokWritersProofs Proofs.MinifyRelex Proofs.MinifyRelations Proofs.MinifyEndToEnd Proofs.MinifyCount.
@@ -55,6 +56,28 @@ Theorem C01_holds_all : forall cfg src out, Forall byte src -> luamin_text cfg [
   holds_C01 src out = true /\ holds_C19 src out = true.
 Proof. exact luamin_holds_all. Qed.
 Print Assumptions C01_holds_all.
+
+(* ... for the source given as any list of chunks that end after line feeds (the lines the .p8
+   reader and Lua.from_lines feed to the lexer), by the lexer worker's C07_chunking *)
+Theorem C01_lines : forall cfg ls out,
+  Forall LexerChunk.ends_lf (removelast ls) -> Forall byte (concat ls) -> luamin_text cfg ls = Ok out ->
+  holds_C01 (concat ls) out = true /\ holds_C19 (concat ls) out = true.
+Proof. exact luamin_lines_all. Qed.
+Print Assumptions C01_lines.
+
+Theorem C01_lines_total : forall cfg ls ss,
+  Forall LexerChunk.ends_lf (removelast ls) -> Forall byte (concat ls) -> spec_toks (concat ls) = Some ss ->
+  exists out, luamin_text cfg ls = Ok out /\ holds_C01 (concat ls) out = true /\ holds_C19 (concat ls) out = true.
+Proof. exact luamin_lines. Qed.
+Print Assumptions C01_lines_total.
+
+(* ... and for the __lua__ text of the cart `p8tool luamin` / `build --lua-minify` write (the chunks,
+   then the line break P8Formatter.to_file supplies unless the last chunk ends with one) *)
+Theorem C01_cart_text : forall cfg ls out,
+  Forall LexerChunk.ends_lf (removelast ls) -> Forall byte (concat ls) -> luamin_cart_text cfg ls = Ok out ->
+  holds_C01 (concat ls) out = true /\ holds_C19 (concat ls) out = true.
+Proof. exact luamin_cart. Qed.
+Print Assumptions C01_cart_text.
 
 (* the token count `stats` reports (Lua.get_token_count = token_count of Model/Lexer.v, with picotool's
    own weights) is the same for the source and for the written text: lexer model on src, writer
